@@ -164,3 +164,65 @@ def teval(t, leaf=None):
         v = ev(t[3][0][1])
         return int(v) if t[1] == 'builtins.int' else bool(v)
     raise NoValue(text(t, 80))
+
+
+def restrict(t, decide):
+    """the term with every gate whose test `decide(test)` settles (True / False; None = leave) replaced by that branch;
+    conditional items of lists / concatenations are kept or dropped likewise"""
+    if not isinstance(t, tuple) or not t:
+        return t
+    if t[0] == 'cond':
+        d = decide(t[1])
+        if d is True:
+            return restrict(t[2], decide)
+        if d is False:
+            return restrict(t[3], decide)
+    if t[0] in ('list', 'add', 'dict', 'set') and len(t) == 2 and isinstance(t[1], tuple):
+        items = []
+        for it in t[1]:
+            if isinstance(it, tuple) and it and it[0] == 'when':
+                keep, rest = True, []
+                for a in it[1]:
+                    d = decide(a[0])
+                    if d is None:
+                        rest.append(a)
+                    elif d != a[1]:
+                        keep = False
+                if not keep:
+                    continue
+                body = tuple(restrict(x, decide) for x in it[2:])
+                items.append(('when', tuple(rest)) + body if rest else (body[0] if len(body) == 1 else body))
+            else:
+                items.append(restrict(it, decide))
+        if t[0] == 'add' and len(items) == 1:
+            return items[0]
+        return (t[0], tuple(items))
+    return tuple(restrict(x, decide) if isinstance(x, tuple) else x for x in t)
+
+
+def truthy_decider(term, value):
+    """decides gates on the truthiness of `term` (also written `term is None` / `term is not None`)"""
+    from .sval import NONE, strip_ids
+    term = strip_ids(term)
+
+    def decide(test):
+        test = strip_ids(test)
+        if test == term:
+            return value
+        if test[0] == 'cmp' and test[1] == 'is' and set(test[2:]) == {NONE, term}:
+            return not value
+        return None
+    return decide
+
+
+def eq_decider(term, const_term, value):
+    """decides gates on `term == const_term`"""
+    from .sval import strip_ids
+    term, const_term = strip_ids(term), strip_ids(const_term)
+
+    def decide(test):
+        test = strip_ids(test)
+        if test[0] == 'cmp' and test[1] in ('==', 'is') and set(test[2:]) == {term, const_term}:
+            return value
+        return None
+    return decide
